@@ -305,7 +305,11 @@ StateAndCovariance = namedtuple("StateAndCovariance", ["state", "covariance"])
 
 
 def assert_valid_covariance(
-    covariance: NDArray, *, name: str = "Covariance", negative_tol: float = -1e-9
+    covariance: NDArray,
+    *,
+    name: str = "Covariance",
+    negative_tol: float = -1e-9,
+    magnitude: float = 0.0,
 ):
     """
     Check that the covariance array is well formed:
@@ -316,9 +320,14 @@ def assert_valid_covariance(
     negative_tol is relative to the magnitude of the matrix: rounding in the
     update equations leaves eigenvalues of a singular (exactly correlated)
     covariance slightly below zero.
+
+    magnitude is the magnitude of the matrices this one was computed from (a
+    small innovation covariance projected out of a large state covariance
+    inherits the rounding of the large one).
     """
     assert isinstance(covariance, np.ndarray)
     scale = max(1.0, float(np.max(np.abs(covariance)))) if covariance.size else 1.0
+    scale = max(scale, magnitude)
     assert np.allclose(covariance, covariance.T, atol=1e-8 * scale)
 
     covariance_eigenvalues = np.linalg.eigvalsh((covariance + covariance.T) / 2.0)
@@ -663,7 +672,11 @@ class ExtendedKalmanFilter:
         self.sensor_prediction_uncertainty[sensor_key] = S_t = (
             np.matmul(H_t, np.matmul(covariance.data, H_t.transpose())) + Q_t.data
         )
-        assert_valid_covariance(S_t, name="Sensor Uncertainty")
+        assert_valid_covariance(
+            S_t,
+            name="Sensor Uncertainty",
+            magnitude=float(np.max(np.abs(covariance.data), initial=0.0)),
+        )
 
         S_inv = np.linalg.inv(S_t)
 
@@ -681,6 +694,8 @@ class ExtendedKalmanFilter:
         next_covariance = covariance.data - np.matmul(
             K_t, np.matmul(H_t, covariance.data)
         )
+        # rounding in K H P is not symmetric; keep the covariance symmetric
+        next_covariance = (next_covariance + next_covariance.transpose()) / 2.0
 
         next_state = state.data + np.matmul(K_t, innovation)
 
